@@ -720,6 +720,11 @@ func convertMap(m map[string]any) error {
 			mm, ok := v.(map[any]any)
 			if !ok {
 				// TODO: do we need to return an error here?
+				if list, isList := v.([]any); isList {
+					if err := convertList(list); err != nil {
+						return err
+					}
+				}
 				continue
 			}
 
@@ -741,6 +746,35 @@ func convertMap(m map[string]any) error {
 		queue = queue[1:]
 	}
 
+	return nil
+}
+
+// convertList converts the map[any]any values found inside a list (at any
+// depth) to map[string]any, so that the configuration can be serialized.
+func convertList(list []any) error {
+	for i, v := range list {
+		switch v := v.(type) {
+		case map[any]any:
+			ret := make(map[string]any)
+			for kk, vv := range v {
+				key, err := parseKey(kk)
+				if err != nil {
+					return fmt.Errorf(
+						"%w: %s", errExecutorConfigMustBeString, err,
+					)
+				}
+				ret[key] = vv
+			}
+			if err := convertMap(ret); err != nil {
+				return err
+			}
+			list[i] = ret
+		case []any:
+			if err := convertList(v); err != nil {
+				return err
+			}
+		}
+	}
 	return nil
 }
 
